@@ -129,8 +129,8 @@ PROPS['C11'] = dict(
     shims=['A-glue', 'A-hashmap', 'A-str', 'A-pplex'],
     design='DESIGN.md 3/C11',
     technique='contract-based deductive verification (Verus) of the verbatim `define / `undef / `undefineall arms and of the table adoption at include and expansion',
-    level_text='Deductive proof that the table is seeded with the 15 coverage constants - names and values equal to the table of IEEE 1800-2017 40.3.1 written out as a spec fn, every seeded entry carrying the value written next to its name - and then every caller entry (caller wins), that `undef removes exactly the named entry, `undefineall empties the table, `define X inserts or replaces exactly X with an entry recording the formal names, default texts and body text as written (origin = defining file and body range) unless X is predefined, and that no other arm writes the table except adopting the one returned by an include or an expansion.',
-    level_note=ARMS_NOTE + ' Partial: the two-file equivalence is not decided.',
+    level_text='Deductive proof that the table is seeded with the 15 coverage constants and then every caller entry (caller wins), that `undef removes exactly the named entry, `undefineall empties the table, `define X inserts or replaces exactly X with an entry recording the formal names, default texts and body text as written (origin = defining file and body range) unless X is predefined, and that no other arm writes the table except adopting the one returned by an include or an expansion.',
+    level_note=ARMS_NOTE + ' Partial: the two-file equivalence is not decided. The statement sets the SV_COV_* entries aside: their names and values are compared with IEEE 40.3.1 by an informational clause of unit prologue that is no obligation of C11 and can never raise a violation.',
     not_covered=['equivalence with preprocessing the concatenated files'],
 )
 
